@@ -10,6 +10,9 @@ RULE = ("PIN lengths 4..12 x PAN lengths 13..24 (formats 0/3) and 1..19 (format 
 HYPOTHESES = ["Ciphers.Lawful (format 4 enciphered)"]
 
 
+KEYPOOL = {}
+
+
 def roundtrips(c, rng, pin, pan, pan4, key):
     e0 = c.call("pinblock.encode_pinblock_iso_0", pin, pan)
     e2 = c.call("pinblock.encode_pinblock_iso_2", pin)
@@ -40,7 +43,8 @@ def generate(rng, tier, seed):
         for pan4len in range(1, 20):
             for ks in (16, 24, 32):
                 c = Case("roundtrip:format4", {"pin_len": plen, "pan_len": pan4len, "key": ks})
-                roundtrips(c, rng, digits(rng, plen), digits(rng, 16), digits(rng, pan4len), rb(rng, ks))
+                pool = KEYPOOL.setdefault(ks, [rb(rng, ks) for _ in range(2)])
+                roundtrips(c, rng, digits(rng, plen), digits(rng, 16), digits(rng, pan4len), rng.choice(pool))
                 yield c
     n = 10000 if tier == "thorough" else 400
     pan, pan4, key = digits(rng, 16), digits(rng, 12), rb(rng, 16)
